@@ -225,6 +225,10 @@ func Main(rt string) {
 				res = doAL(f[1], unhex(f[2]))
 			case "HI":
 				res = doHistory(f[1], f[2:])
+			case "CC":
+				g, _ := strconv.Atoi(f[3])
+				it, _ := strconv.Atoi(f[4])
+				res = doConcurrent(f[1], unhex(f[2]), g, it)
 			default:
 				res = "driver-error unknown request"
 			}
